@@ -32,7 +32,7 @@ func init() {
 		Title: "Projection emits one row per kept row with correctly computed columns",
 		Rule: "rapid draws a typed table (non-negative int, int, fractional, non-zero, nullable numeric, string, bool and object columns; 0-8 rows) " +
 			"and a select list of 1-5 typed expression trees (depth<=4) over + - * / DIV % & | ^ << >>, unary - ~ !, comparisons, CASE WHEN, " +
-			"literals, column and nested-path references (incl. missing keys), optional * and optional WHERE; oracle = independent reference " +
+			"literals, column and nested-path references (incl. missing keys), optional * and optional WHERE; a third of the aliases are spelled like source columns; a quarter of the lists carry an item whose value depends on the prescribed nesting of + or * (cancellation, overflow, absorption), a quarter an equality on a key some rows lack as CASE condition; oracle = independent reference " +
 			"evaluator on float64: row count, exact key set and values per row. Non-trivial: >=1 output row and >=1 operator node. " +
 			"Distinct = distinct JSON encodings of (doc, select list, where).",
 		Assumptions: []string{
